@@ -1354,6 +1354,8 @@ class Real(base.SimpleAsn1Type):
                     )
             if self._inf and value in self._inf:
                 return value
+            elif value != value:
+                raise error.PyAsn1Error('NaN is not a Real value')
             else:
                 e = 0
                 while int(value) != value:
